@@ -214,11 +214,13 @@ var Meta = map[string]PropMeta{
 		Thorough: q(10000, 20*time.Minute),
 	},
 	"C18": {
-		Level:       "exploration",
-		Technique:   "deterministic simulation: seeded scheduler over the capacity/chunking/bias matrix with exact deadlock detection (no enabled transport action while operations are pending), stall faults, 2-32 concurrent sessions against one Server interleaved by one schedule tape; plus free-running sessions under the Go race detector at GOMAXPROCS 1/4/16",
-		Rule:        "term mode: one session A1/A2/A3/A4 with capacities from {0,1,7,64,64Ki,unbounded}^2 (daemon arrangements >= 12 bytes: both ends write their greeting first), chunking style, scheduling bias, optional stall fault, tree mixing tiny files / multi-MiB literals / multi-MiB bases; violation = deadlock or step-budget exhaustion, or a session that ends with an error under the drawn transport although it succeeds on the canonical one (schedule independence); in a quarter of the runs one literal data byte is damaged in flight (located by decoding a fault-free run) and the session must still complete with an error (error-path termination). multi mode: 2-32 concurrent pulls/uploads (distinct and identical targets) via Server.Serve(simulated listener); every session must succeed and its result must equal the same session run alone; a quarter of the workers run the free-running variant in a -race build, and a third of the multi runs on ordinary workers are free-running too (40-200 directories, 4-11 identical uploads to one fresh target) so that handlers really overlap between system calls. Non-trivial = more than 50 scheduler steps (term) or >= 2 sessions on a non-empty tree (multi)",
-		Assumptions: []string{"race detection is happens-before analysis on free-running in-memory transports (not schedule search): the deterministic scheduler would add happens-before edges", "A4 interleaving is chosen by the Go runtime; hang detection there is exact via synctest quiescence", "capacities below 12 bytes are not generated for daemon arrangements (greeting deadlock is protocol-inherent)"},
-		Real:        realCommon, Stub: stubCommon,
+		ExtraTags:        "nonamespacing",
+		MaxJobsPerWorker: 10,
+		Level:            "exploration",
+		Technique:        "deterministic simulation: seeded scheduler over the capacity/chunking/bias matrix with exact deadlock detection (no enabled transport action while operations are pending), stall faults, 2-32 concurrent sessions against one Server interleaved by one schedule tape; plus free-running sessions under the Go race detector at GOMAXPROCS 1/4/16",
+		Rule:             "term mode: one session A1/A2/A3/A4 with capacities from {0,1,7,64,64Ki,unbounded}^2 (daemon arrangements >= 12 bytes: both ends write their greeting first), chunking style, scheduling bias, optional stall fault, tree mixing tiny files / multi-MiB literals / multi-MiB bases; violation = deadlock or step-budget exhaustion, or a session that ends with an error under the drawn transport although it succeeds on the canonical one (schedule independence); in a quarter of the runs one literal data byte is damaged in flight (located by decoding a fault-free run) and the session must still complete with an error (error-path termination). multi mode: 2-32 concurrent pulls/uploads (distinct and identical targets) via Server.Serve(simulated listener); every session must succeed and its result must equal the same session run alone; a quarter of the workers run the free-running variant in a -race build, and a third of the multi runs on ordinary workers are free-running too (40-200 directories, 4-11 identical uploads to one fresh target) so that handlers really overlap between system calls. Non-trivial = more than 50 scheduler steps (term) or >= 2 sessions on a non-empty tree (multi)",
+		Assumptions:      []string{"race detection is happens-before analysis on free-running in-memory transports (not schedule search): the deterministic scheduler would add happens-before edges", "A4 interleaving is chosen by the Go runtime; hang detection there is exact via synctest quiescence", "capacities below 12 bytes are not generated for daemon arrangements (greeting deadlock is protocol-inherent)"},
+		Real:             realCommon, Stub: stubCommon,
 		Quick:        q(1500, 60*time.Second),
 		Thorough:     q(20000, 25*time.Minute),
 		RaceFraction: 0.25,
